@@ -66,24 +66,40 @@ pub fn gen_scalar(rng: &mut Rng, kind: &str) -> SV {
       let nk = NK::from_name(k).unwrap();
       let (lo, hi) = nk.int_range().unwrap();
       let cands: Vec<i128> = vec![0, 1, 2, 3, 7, 9, 100, hi, hi - 1, hi - 5, lo, lo + 1, -1, -5, 20];
-      let ok: Vec<i128> = cands.into_iter().filter(|x| *x >= lo && *x <= hi && x.abs() < (1i128 << 62)).collect();
+      // negative literals are rendered as `-n<kind>`, i.e. the negation of n: the minimum of a signed
+      // kind has no such spelling (n would saturate), so it is never generated as a literal
+      let ok: Vec<i128> = cands.into_iter().filter(|x| *x >= lo && *x <= hi && x.abs() < (1i128 << 62) && !(lo < 0 && *x == lo)).collect();
       SV::Int(nk, *rng.pick(&ok))
     }
   }
 }
 
+/// Matrix elements: as scalars, except that negative integers are left out — `[-1<i64> 2<i64>]` is a
+/// concatenation of a negation formula, which Mech does not accept for every kind; whether it should
+/// is no business of C04/C05.
+fn gen_element(rng: &mut Rng, kind: &str) -> SV {
+  loop {
+    let v = gen_scalar(rng, kind);
+    if let SV::Int(_, x) = &v { if *x < 0 { continue; } }
+    return v;
+  }
+}
+
+fn literal_matrix_kind(kind: &str) -> bool { !NK::from_name(kind).map(|k| k.is_signed()).unwrap_or(false) }
+
 pub fn gen_matrix(rng: &mut Rng, kind: &str, max_dim: usize) -> SV {
+  let kind = if literal_matrix_kind(kind) { kind } else { "f64" };
   let (r, c) = match rng.below(6) {
     0 | 1 => (1, 2 + rng.usize(max_dim.max(2) + 1)),
     2 => (2 + rng.usize(max_dim), 1),
     _ => (2 + rng.usize(max_dim - 1), 2 + rng.usize(max_dim - 1)),
   };
-  let d = (0..r * c).map(|_| gen_scalar(rng, kind)).collect();
+  let d = (0..r * c).map(|_| gen_element(rng, kind)).collect();
   SV::Mat(kind.to_string(), r, c, d)
 }
 
 fn gen_vector_of(rng: &mut Rng, kind: &str, n: usize, column: bool) -> SV {
-  let d = (0..n).map(|_| gen_scalar(rng, kind)).collect();
+  let d = (0..n).map(|_| gen_element(rng, kind)).collect();
   if column { SV::Mat(kind.to_string(), n, 1, d) } else { SV::Mat(kind.to_string(), 1, n, d) }
 }
 
@@ -326,7 +342,7 @@ fn gen_assign(rng: &mut Rng, k: &Knobs, m: &Model, fault: bool) -> Option<Op> {
           // f6: a source of another kind
           let ek = match &v { SV::Mat(ek, ..) => ek.clone(), s => s.kind_tag() };
           let ok = other_kind(rng, &ek);
-          Expr::Lit(match &v { SV::Mat(_, r, c, _) => SV::Mat(ok.clone(), *r, *c, (0..r * c).map(|_| gen_scalar(rng, &ok)).collect()), _ => gen_scalar(rng, &ok) })
+          Expr::Lit(match &v { SV::Mat(_, r, c, _) => SV::Mat(ok.clone(), *r, *c, (0..r * c).map(|_| gen_element(rng, &ok)).collect()), _ => gen_scalar(rng, &ok) })
         }
       } else {
         match &v {
@@ -334,8 +350,9 @@ fn gen_assign(rng: &mut Rng, k: &Knobs, m: &Model, fault: bool) -> Option<Op> {
             let same: Vec<&String> = names_where(m, |b| matches!(&b.v, SV::Mat(k2, r2, c2, _) if k2 == ek && r2 == r && c2 == c)).into_iter().filter(|n| **n != name).collect();
             if !same.is_empty() && rng.chance(1, 3) { Expr::Var((*rng.pick(&same)).clone()) }
             else if ek == "f64" && rng.chance(1, 4) { Expr::VarOp(name.clone(), *rng.pick(&[Bop::Add, Bop::Mul]), gen_scalar(rng, "f64")) }
+            else if !literal_matrix_kind(ek) { Expr::VarOp(name.clone(), *rng.pick(&[Bop::Add, Bop::Mul]), gen_element(rng, ek)) }
             else if rng.chance(1, 8) { Expr::Lit(gen_matrix(rng, ek, k.max_dim)) }
-            else { Expr::Lit(SV::Mat(ek.clone(), *r, *c, (0..r * c).map(|_| gen_scalar(rng, ek)).collect())) }
+            else { Expr::Lit(SV::Mat(ek.clone(), *r, *c, (0..r * c).map(|_| gen_element(rng, ek)).collect())) }
           }
           s if s.is_scalar() => {
             let kind = s.kind_tag();
@@ -356,12 +373,13 @@ fn gen_idx_assign(rng: &mut Rng, k: &Knobs, m: &Model, fault: bool) -> Option<Op
   let (name, ft) = pick_target(rng, k, m, fault, |b| b.v.is_matrix())?;
   let (ek, r, c) = match m.store.get(&name).map(|b| &b.v) { Some(SV::Mat(ek, r, c, _)) => (ek.clone(), *r, *c), _ => ("f64".to_string(), 1, 3) };
   let fk = if fault && !ft { rng.below(3) } else { 99 };
-  let vector_src = rng.chance(1, 4) && fk != 1;
+  let vector_src = rng.chance(1, 4) && fk != 1 && literal_matrix_kind(&ek);
   let sub = gen_sub(rng, r, c, fk == 0, vector_src);
   // index held in a variable
   let sub = match (&sub, rng.chance(1, 6)) {
     (Sub::One(Ix::V(_)), true) | (Sub::One(Ix::S(_)), true) | (Sub::One(Ix::M(_)), true) => {
-      let holders = names_where(m, |b| matches!(&b.v, SV::F64(_)) || matches!(&b.v, SV::Mat(e, r1, c1, _) if (e == "f64" || e == "bool") && (*r1 == 1 || *c1 == 1)));
+      let integral = |v: &SV| v.as_f64().map(|x| x == x.trunc() && x >= 1.0).unwrap_or(false);
+      let holders = names_where(m, |b| integral(&b.v) || matches!(&b.v, SV::Mat(e, r1, c1, d) if (*r1 == 1 || *c1 == 1) && ((e == "f64" && d.iter().all(|x| integral(x))) || (e == "bool" && d.len() == r * c))));
       let holders: Vec<&String> = holders.into_iter().filter(|n| **n != name).collect();
       if holders.is_empty() { sub } else { Sub::One(Ix::Var((*rng.pick(&holders)).clone())) }
     }
@@ -373,9 +391,9 @@ fn gen_idx_assign(rng: &mut Rng, k: &Knobs, m: &Model, fault: bool) -> Option<Op
     Expr::Lit(gen_scalar(rng, &ok))
   } else if fk == 2 {
     failing_source(rng, k, m)
-  } else if vector_src {
-    let n = match super::model::resolve(&sub, r, c, &m.store) { Ok(p) => p.len(), _ => 2 };
-    Expr::Lit(gen_vec_rand(rng, &ek, n.max(1)))
+  } else if vector_src && matches!(super::model::resolve(&sub, r, c, &m.store), Ok(ref p) if !p.is_empty()) {
+    let n = super::model::resolve(&sub, r, c, &m.store).unwrap().len();
+    Expr::Lit(gen_vec_rand(rng, &ek, n))
   } else {
     scalar_source(rng, m, &ek)
   };
@@ -390,19 +408,19 @@ fn gen_op_assign(rng: &mut Rng, k: &Knobs, m: &Model, fault: bool, indexed: bool
   let (ek, r, c, is_mat) = match &cur { Some(SV::Mat(ek, r, c, _)) => (ek.clone(), *r, *c, true), Some(s) => (s.kind_tag(), 1, 1, false), None => ("f64".into(), 1, 1, false) };
   let fk = if fault && !ft { rng.below(3) } else { 99 };
   if indexed {
-    let vector_src = rng.chance(1, 4) && fk != 1;
+    let vector_src = rng.chance(1, 4) && fk != 1 && literal_matrix_kind(&ek);
     let mut sub = gen_sub(rng, r, c, fk == 0, vector_src);
     // op-assign with repeated indices is not pinned down by C04: make index vectors distinct
     if let Sub::One(Ix::V(v)) = &mut sub { let mut seen = vec![]; v.retain(|x| { let keep = !seen.contains(x); seen.push(*x); keep }); }
     let e = if fk == 1 { Expr::Lit(scalar_of_other_kind(rng, &ek)) }
       else if fk == 2 { failing_source(rng, k, m) }
-      else if vector_src { let n = match super::model::resolve(&sub, r, c, &m.store) { Ok(p) => p.len(), _ => 2 }; Expr::Lit(gen_vec_rand(rng, &ek, n.max(1))) }
+      else if vector_src && matches!(super::model::resolve(&sub, r, c, &m.store), Ok(ref p) if !p.is_empty()) { let n = super::model::resolve(&sub, r, c, &m.store).unwrap().len(); Expr::Lit(gen_vec_rand(rng, &ek, n)) }
       else { scalar_source(rng, m, &ek) };
     Some(Op::OpAssign { name, sub: Some(sub), op: bop, e })
   } else {
     let e = if fk == 1 { Expr::Lit(scalar_of_other_kind(rng, &ek)) }
       else if fk == 2 || fk == 0 { failing_source(rng, k, m) }
-      else if is_mat && rng.chance(1, 3) { Expr::Lit(SV::Mat(ek.clone(), r, c, (0..r * c).map(|_| gen_scalar(rng, &ek)).collect())) }
+      else if is_mat && literal_matrix_kind(&ek) && rng.chance(1, 3) { Expr::Lit(SV::Mat(ek.clone(), r, c, (0..r * c).map(|_| gen_element(rng, &ek)).collect())) }
       else { scalar_source(rng, m, &ek) };
     Some(Op::OpAssign { name, sub: None, op: bop, e })
   }
